@@ -11,6 +11,8 @@ func init() {
 const subMu = "protocol/sub.socket.Mutex"
 
 func runC06(p *Prog, r *Report) {
+	r.Describe("C06.9/queue-swap-wakes", "whenever a SUB context's queue is rebuilt (unsubscribe, ReadQLen) the receivers blocked on the old queue are woken in the same step")
+	queueSwapWakes(p, r, "C06.9/queue-swap-wakes", func(rel string) bool { return rel == "protocol/sub" || rel == "protocol/xsub" })
 	crossCutting(p, r, "C06.X", "protocol/sub", "protocol/xsub", "protocol/xpub")
 	lockBalance(p, r, "C06.8/E1", "protocol/sub", "protocol/xsub", "protocol/xpub")
 	q := NewQ(p, r)
